@@ -83,7 +83,7 @@ ROWS = [
     P("CfUnitU8", "ControlFlow<(),u8>"), P("OptPhantom", "Option<PhantomData<u8>>"), P("RangeU64", "Range<u64>"), P("BoundUnit", "Bound<()>"), P("OptNzU8", "Option<NonZeroU8>"),
     P("RangeInclU8", "RangeInclusive<u8> (not exhausted)"), P("OptString", "Option<String>", 1, 6, borrows=True, shapes=3, qshapes=[2]),
     P("BoundVecU8", "Bound<Vec<u8>>", 1, 5, borrows=True), P("BoxVecU8", "Box<[Vec<u8>]>", 1, 4, borrows=True, shapes=4, qshapes=[3], apairs={0: 0, 1: 1, 2: 3, 3: 2}),
-    P("ArrArrU32x0", "[[u32;0];2]", 4, 3, borrows=True), P("ArrZUnitx3", "[ZUnit;3]", 1, 3, borrows=True), P("ArrZAl4x2", "[ZAl4;2]", 4, 3, borrows=True),
+    P("ArrArrU32x0", "[[u32;0];2]", 4, 3, borrows=True), P("ArrZUnitx3", "[ZUnit;3]", 1, 5, borrows=True), P("ArrZAl4x2", "[ZAl4;2]", 4, 3, borrows=True),
     P("ArrTup2x2", "[(u16,u16);2]", 2, 6, borrows=True), P("TupZeroS2", "(ZeroS,ZeroS)", 4, 3, borrows=True), P("TupF64x2", "(f64,f64)", 8, 3, borrows=True),
     P("HoldVecZUnit", "Hold<Vec<ZUnit>>", 1, 4, borrows=True), P("HoldArrU64x0", "Hold<[u64;0]>", 8, 3, borrows=True, note="empty over-aligned array in a parameter field"),
     P("EnZeroS", "En<ZeroS>", 4, 3, borrows=True),
